@@ -130,6 +130,12 @@ theorem field_eq_spec (cap : Nat) (f : Field ν) (rows : List (Row ν))
       fieldSpec (fieldFn f) (fieldRows f rows) :=
   field_engine_eq_spec cap f rows hcap
 
+/-- the oracle applies the definition exactly where the theorems' hypothesis holds: its
+incremental cap flags are `withinCap` of every prefix of the field's rows -/
+theorem oracle_cap_flags (cap : Nat) (rows : List (FRow (List KVal) (Row ν))) :
+    capFlags cap rows = prefixFlags cap [] rows :=
+  capFlags_eq cap rows
+
 end query
 
 /-! ### non-vacuity: concrete instances over `ν := Int` -/
